@@ -91,8 +91,8 @@ def find_edit(mid, path):
         m = re.search(r"speed_ratio\s*\*\*\s*3", s)
         return s[:m.start()] + "speed_ratio**2" + s[m.end():] if m else None
     if mid == 'm11':
-        m = re.search(r"between_points = int\((.*)\)", s)
-        return s[:m.start()] + "between_points = int(" + m.group(1) + ") + 1" + s[m.end():] if m else None
+        m = re.search(r"between_points = (max\([^\n#]*\))", s)
+        return s[:m.start()] + "between_points = " + m.group(1) + " + 1" + s[m.end():] if m else None
     if mid == 'm12':
         m = re.search(r"def vls_FBSB\(([^)]*)e=([0-9.e/*musf-]+)", s)
         if not m:
